@@ -236,66 +236,77 @@ Definition key_skip (k : dkey) : option bool :=
 
 Definition is_map (d : dv) : bool := match d with DMap _ => true | _ => false end.
 
+(* The Mapping branch, parameterised by the recursive call [f].
+   [entry_len]: the key filter, then the recursion.
+   [idx_len]:   one {index: value} dict after the dedupe by id(v) (first occurrence of every identity is kept).
+   [paths_len]: the fresh {path: {index: value}} dict built by the dedupe, processed as a Mapping.
+   A dedupe key nested directly inside a dedupe'd dict is outside the model ([EUnmodelled]). *)
+Section ItemLength.
+  Variable f : dv -> lres.
+
+  Definition entry_len (k : dkey) (v : dv) : lres :=
+    if is_dedupe_key k then LErr EUnmodelled else
+    match key_skip k with
+    | None => LErr EType
+    | Some true => LOk 0
+    | Some false => f v
+    end.
+
+  Fixpoint idx_len (seen : list nat) (ents : list (dkey * nat * dv)) : lres :=
+    match ents with
+    | [] => LOk 0
+    | (ik, iid, v) :: er =>
+        if existsb (Nat.eqb iid) seen then idx_len seen er
+        else ladd (entry_len ik v) (idx_len (iid :: seen) er)
+    end.
+
+  Definition inner_len (inner : dv) : lres :=
+    match inner with DMap ents => idx_len [] ents | _ => LErr EAttr end.
+
+  Fixpoint paths_len (paths : list (dkey * nat * dv)) : lres :=
+    match paths with
+    | [] => LOk 0
+    | (p, _, inner) :: pr =>
+        ladd (if is_dedupe_key p then LErr EUnmodelled else
+              match key_skip p with
+              | None => LErr EType
+              | Some true => LOk 0
+              | Some false => inner_len inner
+              end)
+             (paths_len pr)
+    end.
+
+  (* key in {iterable_items_added_at_indexes, iterable_items_removed_at_indexes}:
+     subitem.items() / indexes_to_items.items() raise AttributeError on non-Mappings *)
+  Definition dedupe_len (sub : dv) : lres :=
+    match sub with
+    | DMap paths => if forallb (fun e => is_map (snd e)) paths then paths_len paths else LErr EAttr
+    | _ => LErr EAttr
+    end.
+
+  Fixpoint map_len (kvs : list (dkey * nat * dv)) : lres :=
+    match kvs with
+    | [] => LOk 0
+    | (k, _, sub) :: r =>
+        ladd (if is_dedupe_key k then dedupe_len sub else
+              match key_skip k with
+              | None => LErr EType
+              | Some true => LOk 0
+              | Some false => f sub
+              end)
+             (map_len r)
+    end.
+
+  Fixpoint seq_len (xs : list dv) : lres :=
+    match xs with [] => LOk 0 | x :: r => ladd (f x) (seq_len r) end.
+End ItemLength.
+
 Fixpoint item_length (d : dv) : lres :=
   match d with
   | DNone => LOk 0
   | DNum | DStr | DType => LOk 1
-  | DSeq xs =>
-      (fix go (xs : list dv) : lres :=
-         match xs with [] => LOk 0 | x :: r => ladd (item_length x) (go r) end) xs
-  | DMap kvs =>
-      (fix go (kvs : list (dkey * nat * dv)) : lres :=
-         match kvs with
-         | [] => LOk 0
-         | (k, _, sub) :: r =>
-           let here :=
-             if is_dedupe_key k then
-               (* dedupe the repetition report by id(v); then recurse into the fresh dict *)
-               match sub with
-               | DMap paths =>
-                 if forallb (fun e => is_map (snd e)) paths then
-                   (fix gp (paths : list (dkey * nat * dv)) : lres :=
-                      match paths with
-                      | [] => LOk 0
-                      | (p, _, inner) :: pr =>
-                        ladd
-                          (if is_dedupe_key p then LErr EUnmodelled else
-                           match key_skip p with
-                           | None => LErr EType
-                           | Some true => LOk 0
-                           | Some false =>
-                             match inner with
-                             | DMap ents =>
-                               (fix gi (seen : list nat) (ents : list (dkey * nat * dv)) : lres :=
-                                  match ents with
-                                  | [] => LOk 0
-                                  | (ik, iid, v) :: er =>
-                                    if existsb (Nat.eqb iid) seen then gi seen er
-                                    else ladd
-                                           (if is_dedupe_key ik then LErr EUnmodelled else
-                                            match key_skip ik with
-                                            | None => LErr EType
-                                            | Some true => LOk 0
-                                            | Some false => item_length v
-                                            end)
-                                           (gi (iid :: seen) er)
-                                  end) [] ents
-                             | _ => LErr EAttr
-                             end
-                           end)
-                          (gp pr)
-                      end) paths
-                 else LErr EAttr            (* indexes_to_items.items() on a non-Mapping *)
-               | _ => LErr EAttr            (* subitem.items() on a non-Mapping *)
-               end
-             else
-               match key_skip k with
-               | None => LErr EType
-               | Some true => LOk 0
-               | Some false => item_length sub
-               end in
-           ladd here (go r)
-         end) kvs
+  | DSeq xs => seq_len item_length xs
+  | DMap kvs => map_len item_length kvs
   end.
 
 (** ** a user value as _get_item_length sees it (new_value, added items ...) *)
